@@ -4,106 +4,136 @@ set_option linter.unusedVariables false
 namespace ImathVerif.Gen
 open ImathVerif
 
-/-- extracted from the C++ template at T = Sym; 5 path(s) -/
-def V2.length {α : Type} [Add α] [Mul α] [Div α] [Neg α] [LT α] [DecidableLT α] [DecidableEq α] [OfNat α 0] [OfNat α 2] (tmin : α) (sqrt : α → α) (a : V2 α) : α :=
+/-- extracted from the C++ template at T = Sym; 9 path(s) -/
+def V2.length {α : Type} [Add α] [Mul α] [Div α] [Neg α] [LT α] [DecidableLT α] [DecidableEq α] [OfNat α 0] [OfNat α 2] (tmin : α) (tmax : α) (sqrt : α → α) (a : V2 α) : α :=
   let t5 := ((a.x * a.x) + (a.y * a.y))
   let t8 := ((2 : α) * tmin)
   let t9 := (sabs a.x)
   let t10 := (sabs a.y)
   let t11 := (t9 / t10)
   let t12 := (t10 / t10)
+  let t17 := (t10 * (sqrt ((t11 * t11) + (t12 * t12))))
   let t18 := (t9 / t9)
   let t19 := (t10 / t9)
+  let t24 := (t9 * (sqrt ((t18 * t18) + (t19 * t19))))
   if t5 < t8 then
     if t9 < t10 then
       if t10 = (0 : α) then
         (0 : α)
       else
-        (t10 * (sqrt ((t11 * t11) + (t12 * t12))))
+        t17
     else
       if t9 = (0 : α) then
         (0 : α)
       else
-        (t9 * (sqrt ((t18 * t18) + (t19 * t19))))
+        t24
   else
-    (sqrt t5)
+    if tmax < t5 then
+      if t9 < t10 then
+        if t10 = (0 : α) then
+          (0 : α)
+        else
+          t17
+      else
+        if t9 = (0 : α) then
+          (0 : α)
+        else
+          t24
+    else
+      (sqrt t5)
 
-/-- extracted from the C++ template at T = Sym; 65 path(s) -/
-def V3.length {α : Type} [Add α] [Mul α] [Div α] [Neg α] [LT α] [LE α] [DecidableLT α] [DecidableLE α] [DecidableEq α] [OfNat α 0] [OfNat α 2] (tmin : α) (sqrt : α → α) (a : V3 α) : α :=
+/-- extracted from the C++ template at T = Sym; 129 path(s) -/
+def V3.length {α : Type} [Add α] [Mul α] [Div α] [Neg α] [LT α] [LE α] [DecidableLT α] [DecidableLE α] [DecidableEq α] [OfNat α 0] [OfNat α 2] (tmin : α) (tmax : α) (sqrt : α → α) (a : V3 α) : α :=
   let t8 := ((2 : α) * tmin)
-  let t28 := (((a.x * a.x) + (a.y * a.y)) + (a.z * a.z))
-  let t29 := (a.x / a.z)
-  let t30 := (a.y / a.z)
-  let t31 := (a.z / a.z)
-  let t32 := (t31 * t31)
-  let t33 := (t30 * t30)
-  let t34 := (t29 * t29)
-  let t38 := (a.z * (sqrt ((t34 + t33) + t32)))
-  let t39 := (a.x / a.y)
-  let t40 := (a.y / a.y)
-  let t41 := (a.z / a.y)
-  let t42 := (t41 * t41)
-  let t43 := (t40 * t40)
-  let t45 := ((t39 * t39) + t43)
-  let t49 := (a.x / a.x)
-  let t50 := (a.y / a.x)
-  let t51 := (a.z / a.x)
-  let t52 := (t51 * t51)
-  let t54 := (t49 * t49)
-  let t55 := (t54 + (t50 * t50))
-  let t59 := (-a.z)
-  let t60 := (a.x / t59)
-  let t61 := (a.y / t59)
-  let t62 := (t59 / t59)
-  let t63 := (t62 * t62)
-  let t64 := (t61 * t61)
-  let t65 := (t60 * t60)
-  let t69 := (t59 * (sqrt ((t65 + t64) + t63)))
-  let t70 := (t59 / a.y)
-  let t71 := (t70 * t70)
-  let t75 := (t59 / a.x)
-  let t76 := (t75 * t75)
-  let t80 := (-a.y)
-  let t81 := (t80 / a.z)
-  let t82 := (t81 * t81)
-  let t86 := (a.z * (sqrt ((t34 + t82) + t32)))
-  let t87 := (a.x / t80)
-  let t88 := (t80 / t80)
-  let t89 := (a.z / t80)
-  let t90 := (t89 * t89)
-  let t91 := (t88 * t88)
-  let t93 := ((t87 * t87) + t91)
-  let t97 := (t80 / a.x)
-  let t99 := (t54 + (t97 * t97))
-  let t103 := (t80 / t59)
-  let t104 := (t103 * t103)
-  let t108 := (t59 * (sqrt ((t65 + t104) + t63)))
-  let t109 := (t59 / t80)
-  let t110 := (t109 * t109)
-  let t117 := (-a.x)
-  let t118 := (t117 / a.z)
-  let t119 := (t118 * t118)
-  let t123 := (a.z * (sqrt ((t119 + t33) + t32)))
-  let t124 := (t117 / a.y)
-  let t126 := ((t124 * t124) + t43)
-  let t130 := (t117 / t117)
-  let t131 := (a.y / t117)
-  let t132 := (a.z / t117)
-  let t133 := (t132 * t132)
-  let t135 := (t130 * t130)
-  let t136 := (t135 + (t131 * t131))
-  let t140 := (t117 / t59)
-  let t141 := (t140 * t140)
-  let t145 := (t59 * (sqrt ((t141 + t64) + t63)))
-  let t149 := (t59 / t117)
-  let t150 := (t149 * t149)
-  let t157 := (a.z * (sqrt ((t119 + t82) + t32)))
-  let t158 := (t117 / t80)
-  let t160 := ((t158 * t158) + t91)
-  let t164 := (t80 / t117)
-  let t166 := (t135 + (t164 * t164))
-  let t173 := (t59 * (sqrt ((t141 + t104) + t63)))
-  if t28 < t8 then
+  let t29 := (((a.x * a.x) + (a.y * a.y)) + (a.z * a.z))
+  let t30 := (a.x / a.z)
+  let t31 := (a.y / a.z)
+  let t32 := (a.z / a.z)
+  let t33 := (t32 * t32)
+  let t34 := (t31 * t31)
+  let t35 := (t30 * t30)
+  let t39 := (a.z * (sqrt ((t35 + t34) + t33)))
+  let t40 := (a.x / a.y)
+  let t41 := (a.y / a.y)
+  let t42 := (a.z / a.y)
+  let t43 := (t42 * t42)
+  let t44 := (t41 * t41)
+  let t46 := ((t40 * t40) + t44)
+  let t49 := (a.y * (sqrt (t46 + t43)))
+  let t50 := (a.x / a.x)
+  let t51 := (a.y / a.x)
+  let t52 := (a.z / a.x)
+  let t53 := (t52 * t52)
+  let t55 := (t50 * t50)
+  let t56 := (t55 + (t51 * t51))
+  let t59 := (a.x * (sqrt (t56 + t53)))
+  let t60 := (-a.z)
+  let t61 := (a.x / t60)
+  let t62 := (a.y / t60)
+  let t63 := (t60 / t60)
+  let t64 := (t63 * t63)
+  let t65 := (t62 * t62)
+  let t66 := (t61 * t61)
+  let t70 := (t60 * (sqrt ((t66 + t65) + t64)))
+  let t71 := (t60 / a.y)
+  let t72 := (t71 * t71)
+  let t75 := (a.y * (sqrt (t46 + t72)))
+  let t76 := (t60 / a.x)
+  let t77 := (t76 * t76)
+  let t80 := (a.x * (sqrt (t56 + t77)))
+  let t81 := (-a.y)
+  let t82 := (t81 / a.z)
+  let t83 := (t82 * t82)
+  let t87 := (a.z * (sqrt ((t35 + t83) + t33)))
+  let t88 := (a.x / t81)
+  let t89 := (t81 / t81)
+  let t90 := (a.z / t81)
+  let t91 := (t90 * t90)
+  let t92 := (t89 * t89)
+  let t94 := ((t88 * t88) + t92)
+  let t97 := (t81 * (sqrt (t94 + t91)))
+  let t98 := (t81 / a.x)
+  let t100 := (t55 + (t98 * t98))
+  let t103 := (a.x * (sqrt (t100 + t53)))
+  let t104 := (t81 / t60)
+  let t105 := (t104 * t104)
+  let t109 := (t60 * (sqrt ((t66 + t105) + t64)))
+  let t110 := (t60 / t81)
+  let t111 := (t110 * t110)
+  let t114 := (t81 * (sqrt (t94 + t111)))
+  let t117 := (a.x * (sqrt (t100 + t77)))
+  let t118 := (-a.x)
+  let t119 := (t118 / a.z)
+  let t120 := (t119 * t119)
+  let t124 := (a.z * (sqrt ((t120 + t34) + t33)))
+  let t125 := (t118 / a.y)
+  let t127 := ((t125 * t125) + t44)
+  let t130 := (a.y * (sqrt (t127 + t43)))
+  let t131 := (t118 / t118)
+  let t132 := (a.y / t118)
+  let t133 := (a.z / t118)
+  let t134 := (t133 * t133)
+  let t136 := (t131 * t131)
+  let t137 := (t136 + (t132 * t132))
+  let t140 := (t118 * (sqrt (t137 + t134)))
+  let t141 := (t118 / t60)
+  let t142 := (t141 * t141)
+  let t146 := (t60 * (sqrt ((t142 + t65) + t64)))
+  let t149 := (a.y * (sqrt (t127 + t72)))
+  let t150 := (t60 / t118)
+  let t151 := (t150 * t150)
+  let t154 := (t118 * (sqrt (t137 + t151)))
+  let t158 := (a.z * (sqrt ((t120 + t83) + t33)))
+  let t159 := (t118 / t81)
+  let t161 := ((t159 * t159) + t92)
+  let t164 := (t81 * (sqrt (t161 + t91)))
+  let t165 := (t81 / t118)
+  let t167 := (t136 + (t165 * t165))
+  let t170 := (t118 * (sqrt (t167 + t134)))
+  let t174 := (t60 * (sqrt ((t142 + t105) + t64)))
+  let t177 := (t81 * (sqrt (t161 + t111)))
+  let t180 := (t118 * (sqrt (t167 + t151)))
+  if t29 < t8 then
     if (0 : α) ≤ a.x then
       if (0 : α) ≤ a.y then
         if (0 : α) ≤ a.z then
@@ -112,376 +142,600 @@ def V3.length {α : Type} [Add α] [Mul α] [Div α] [Neg α] [LT α] [LE α] [D
               if a.z = (0 : α) then
                 (0 : α)
               else
-                t38
+                t39
             else
               if a.y = (0 : α) then
                 (0 : α)
               else
-                (a.y * (sqrt (t45 + t42)))
+                t49
           else
             if a.x < a.z then
               if a.z = (0 : α) then
                 (0 : α)
               else
-                t38
+                t39
             else
               if a.x = (0 : α) then
                 (0 : α)
               else
-                (a.x * (sqrt (t55 + t52)))
+                t59
         else
           if a.x < a.y then
-            if a.y < t59 then
-              if t59 = (0 : α) then
+            if a.y < t60 then
+              if t60 = (0 : α) then
                 (0 : α)
               else
-                t69
+                t70
             else
               if a.y = (0 : α) then
                 (0 : α)
               else
-                (a.y * (sqrt (t45 + t71)))
+                t75
           else
-            if a.x < t59 then
-              if t59 = (0 : α) then
+            if a.x < t60 then
+              if t60 = (0 : α) then
                 (0 : α)
               else
-                t69
+                t70
             else
               if a.x = (0 : α) then
                 (0 : α)
               else
-                (a.x * (sqrt (t55 + t76)))
+                t80
       else
         if (0 : α) ≤ a.z then
-          if a.x < t80 then
-            if t80 < a.z then
+          if a.x < t81 then
+            if t81 < a.z then
               if a.z = (0 : α) then
                 (0 : α)
               else
-                t86
+                t87
             else
-              if t80 = (0 : α) then
+              if t81 = (0 : α) then
                 (0 : α)
               else
-                (t80 * (sqrt (t93 + t90)))
+                t97
           else
             if a.x < a.z then
               if a.z = (0 : α) then
                 (0 : α)
               else
-                t86
+                t87
             else
               if a.x = (0 : α) then
                 (0 : α)
               else
-                (a.x * (sqrt (t99 + t52)))
+                t103
         else
-          if a.x < t80 then
-            if t80 < t59 then
-              if t59 = (0 : α) then
+          if a.x < t81 then
+            if t81 < t60 then
+              if t60 = (0 : α) then
                 (0 : α)
               else
-                t108
+                t109
             else
-              if t80 = (0 : α) then
+              if t81 = (0 : α) then
                 (0 : α)
               else
-                (t80 * (sqrt (t93 + t110)))
+                t114
           else
-            if a.x < t59 then
-              if t59 = (0 : α) then
+            if a.x < t60 then
+              if t60 = (0 : α) then
                 (0 : α)
               else
-                t108
+                t109
             else
               if a.x = (0 : α) then
                 (0 : α)
               else
-                (a.x * (sqrt (t99 + t76)))
+                t117
     else
       if (0 : α) ≤ a.y then
         if (0 : α) ≤ a.z then
-          if t117 < a.y then
+          if t118 < a.y then
             if a.y < a.z then
               if a.z = (0 : α) then
                 (0 : α)
               else
-                t123
+                t124
             else
               if a.y = (0 : α) then
                 (0 : α)
               else
-                (a.y * (sqrt (t126 + t42)))
+                t130
           else
-            if t117 < a.z then
+            if t118 < a.z then
               if a.z = (0 : α) then
                 (0 : α)
               else
-                t123
+                t124
             else
-              if t117 = (0 : α) then
+              if t118 = (0 : α) then
                 (0 : α)
               else
-                (t117 * (sqrt (t136 + t133)))
+                t140
         else
-          if t117 < a.y then
-            if a.y < t59 then
-              if t59 = (0 : α) then
+          if t118 < a.y then
+            if a.y < t60 then
+              if t60 = (0 : α) then
                 (0 : α)
               else
-                t145
+                t146
             else
               if a.y = (0 : α) then
                 (0 : α)
               else
-                (a.y * (sqrt (t126 + t71)))
+                t149
           else
-            if t117 < t59 then
-              if t59 = (0 : α) then
+            if t118 < t60 then
+              if t60 = (0 : α) then
                 (0 : α)
               else
-                t145
+                t146
             else
-              if t117 = (0 : α) then
+              if t118 = (0 : α) then
                 (0 : α)
               else
-                (t117 * (sqrt (t136 + t150)))
+                t154
       else
         if (0 : α) ≤ a.z then
-          if t117 < t80 then
-            if t80 < a.z then
+          if t118 < t81 then
+            if t81 < a.z then
               if a.z = (0 : α) then
                 (0 : α)
               else
-                t157
+                t158
             else
-              if t80 = (0 : α) then
+              if t81 = (0 : α) then
                 (0 : α)
               else
-                (t80 * (sqrt (t160 + t90)))
+                t164
           else
-            if t117 < a.z then
+            if t118 < a.z then
               if a.z = (0 : α) then
                 (0 : α)
               else
-                t157
+                t158
             else
-              if t117 = (0 : α) then
+              if t118 = (0 : α) then
                 (0 : α)
               else
-                (t117 * (sqrt (t166 + t133)))
+                t170
         else
-          if t117 < t80 then
-            if t80 < t59 then
-              if t59 = (0 : α) then
+          if t118 < t81 then
+            if t81 < t60 then
+              if t60 = (0 : α) then
                 (0 : α)
               else
-                t173
+                t174
             else
-              if t80 = (0 : α) then
+              if t81 = (0 : α) then
                 (0 : α)
               else
-                (t80 * (sqrt (t160 + t110)))
+                t177
           else
-            if t117 < t59 then
-              if t59 = (0 : α) then
+            if t118 < t60 then
+              if t60 = (0 : α) then
                 (0 : α)
               else
-                t173
+                t174
             else
-              if t117 = (0 : α) then
+              if t118 = (0 : α) then
                 (0 : α)
               else
-                (t117 * (sqrt (t166 + t150)))
+                t180
   else
-    (sqrt t28)
+    if tmax < t29 then
+      if (0 : α) ≤ a.x then
+        if (0 : α) ≤ a.y then
+          if (0 : α) ≤ a.z then
+            if a.x < a.y then
+              if a.y < a.z then
+                if a.z = (0 : α) then
+                  (0 : α)
+                else
+                  t39
+              else
+                if a.y = (0 : α) then
+                  (0 : α)
+                else
+                  t49
+            else
+              if a.x < a.z then
+                if a.z = (0 : α) then
+                  (0 : α)
+                else
+                  t39
+              else
+                if a.x = (0 : α) then
+                  (0 : α)
+                else
+                  t59
+          else
+            if a.x < a.y then
+              if a.y < t60 then
+                if t60 = (0 : α) then
+                  (0 : α)
+                else
+                  t70
+              else
+                if a.y = (0 : α) then
+                  (0 : α)
+                else
+                  t75
+            else
+              if a.x < t60 then
+                if t60 = (0 : α) then
+                  (0 : α)
+                else
+                  t70
+              else
+                if a.x = (0 : α) then
+                  (0 : α)
+                else
+                  t80
+        else
+          if (0 : α) ≤ a.z then
+            if a.x < t81 then
+              if t81 < a.z then
+                if a.z = (0 : α) then
+                  (0 : α)
+                else
+                  t87
+              else
+                if t81 = (0 : α) then
+                  (0 : α)
+                else
+                  t97
+            else
+              if a.x < a.z then
+                if a.z = (0 : α) then
+                  (0 : α)
+                else
+                  t87
+              else
+                if a.x = (0 : α) then
+                  (0 : α)
+                else
+                  t103
+          else
+            if a.x < t81 then
+              if t81 < t60 then
+                if t60 = (0 : α) then
+                  (0 : α)
+                else
+                  t109
+              else
+                if t81 = (0 : α) then
+                  (0 : α)
+                else
+                  t114
+            else
+              if a.x < t60 then
+                if t60 = (0 : α) then
+                  (0 : α)
+                else
+                  t109
+              else
+                if a.x = (0 : α) then
+                  (0 : α)
+                else
+                  t117
+      else
+        if (0 : α) ≤ a.y then
+          if (0 : α) ≤ a.z then
+            if t118 < a.y then
+              if a.y < a.z then
+                if a.z = (0 : α) then
+                  (0 : α)
+                else
+                  t124
+              else
+                if a.y = (0 : α) then
+                  (0 : α)
+                else
+                  t130
+            else
+              if t118 < a.z then
+                if a.z = (0 : α) then
+                  (0 : α)
+                else
+                  t124
+              else
+                if t118 = (0 : α) then
+                  (0 : α)
+                else
+                  t140
+          else
+            if t118 < a.y then
+              if a.y < t60 then
+                if t60 = (0 : α) then
+                  (0 : α)
+                else
+                  t146
+              else
+                if a.y = (0 : α) then
+                  (0 : α)
+                else
+                  t149
+            else
+              if t118 < t60 then
+                if t60 = (0 : α) then
+                  (0 : α)
+                else
+                  t146
+              else
+                if t118 = (0 : α) then
+                  (0 : α)
+                else
+                  t154
+        else
+          if (0 : α) ≤ a.z then
+            if t118 < t81 then
+              if t81 < a.z then
+                if a.z = (0 : α) then
+                  (0 : α)
+                else
+                  t158
+              else
+                if t81 = (0 : α) then
+                  (0 : α)
+                else
+                  t164
+            else
+              if t118 < a.z then
+                if a.z = (0 : α) then
+                  (0 : α)
+                else
+                  t158
+              else
+                if t118 = (0 : α) then
+                  (0 : α)
+                else
+                  t170
+          else
+            if t118 < t81 then
+              if t81 < t60 then
+                if t60 = (0 : α) then
+                  (0 : α)
+                else
+                  t174
+              else
+                if t81 = (0 : α) then
+                  (0 : α)
+                else
+                  t177
+            else
+              if t118 < t60 then
+                if t60 = (0 : α) then
+                  (0 : α)
+                else
+                  t174
+              else
+                if t118 = (0 : α) then
+                  (0 : α)
+                else
+                  t180
+    else
+      (sqrt t29)
 
-/-- extracted from the C++ template at T = Sym; 257 path(s) -/
-def V4.length {α : Type} [Add α] [Mul α] [Div α] [Neg α] [LT α] [LE α] [DecidableLT α] [DecidableLE α] [DecidableEq α] [OfNat α 0] [OfNat α 2] (tmin : α) (sqrt : α → α) (a : V4 α) : α :=
+/-- extracted from the C++ template at T = Sym; 513 path(s) -/
+def V4.length {α : Type} [Add α] [Mul α] [Div α] [Neg α] [LT α] [LE α] [DecidableLT α] [DecidableLE α] [DecidableEq α] [OfNat α 0] [OfNat α 2] (tmin : α) (tmax : α) (sqrt : α → α) (a : V4 α) : α :=
   let t8 := ((2 : α) * tmin)
-  let t29 := (a.x / a.z)
-  let t30 := (a.y / a.z)
-  let t31 := (a.z / a.z)
-  let t32 := (t31 * t31)
-  let t33 := (t30 * t30)
-  let t34 := (t29 * t29)
-  let t36 := ((t34 + t33) + t32)
-  let t39 := (a.x / a.y)
-  let t40 := (a.y / a.y)
-  let t41 := (a.z / a.y)
-  let t42 := (t41 * t41)
-  let t43 := (t40 * t40)
-  let t45 := ((t39 * t39) + t43)
-  let t46 := (t45 + t42)
-  let t49 := (a.x / a.x)
-  let t50 := (a.y / a.x)
-  let t51 := (a.z / a.x)
-  let t52 := (t51 * t51)
-  let t54 := (t49 * t49)
-  let t55 := (t54 + (t50 * t50))
-  let t56 := (t55 + t52)
-  let t59 := (-a.z)
-  let t60 := (a.x / t59)
-  let t61 := (a.y / t59)
-  let t62 := (t59 / t59)
-  let t63 := (t62 * t62)
-  let t64 := (t61 * t61)
-  let t65 := (t60 * t60)
-  let t67 := ((t65 + t64) + t63)
-  let t70 := (t59 / a.y)
-  let t71 := (t70 * t70)
-  let t72 := (t45 + t71)
-  let t75 := (t59 / a.x)
-  let t76 := (t75 * t75)
-  let t77 := (t55 + t76)
-  let t80 := (-a.y)
-  let t81 := (t80 / a.z)
-  let t82 := (t81 * t81)
-  let t84 := ((t34 + t82) + t32)
-  let t87 := (a.x / t80)
-  let t88 := (t80 / t80)
-  let t89 := (a.z / t80)
-  let t90 := (t89 * t89)
-  let t91 := (t88 * t88)
-  let t93 := ((t87 * t87) + t91)
-  let t94 := (t93 + t90)
-  let t97 := (t80 / a.x)
-  let t99 := (t54 + (t97 * t97))
-  let t100 := (t99 + t52)
-  let t103 := (t80 / t59)
-  let t104 := (t103 * t103)
-  let t106 := ((t65 + t104) + t63)
-  let t109 := (t59 / t80)
-  let t110 := (t109 * t109)
-  let t111 := (t93 + t110)
-  let t114 := (t99 + t76)
-  let t117 := (-a.x)
-  let t118 := (t117 / a.z)
-  let t119 := (t118 * t118)
-  let t121 := ((t119 + t33) + t32)
-  let t124 := (t117 / a.y)
-  let t126 := ((t124 * t124) + t43)
-  let t127 := (t126 + t42)
-  let t130 := (t117 / t117)
-  let t131 := (a.y / t117)
-  let t132 := (a.z / t117)
-  let t133 := (t132 * t132)
-  let t135 := (t130 * t130)
-  let t136 := (t135 + (t131 * t131))
-  let t137 := (t136 + t133)
-  let t140 := (t117 / t59)
-  let t141 := (t140 * t140)
-  let t143 := ((t141 + t64) + t63)
-  let t146 := (t126 + t71)
-  let t149 := (t59 / t117)
-  let t150 := (t149 * t149)
-  let t151 := (t136 + t150)
-  let t155 := ((t119 + t82) + t32)
-  let t158 := (t117 / t80)
-  let t160 := ((t158 * t158) + t91)
-  let t161 := (t160 + t90)
-  let t164 := (t80 / t117)
-  let t166 := (t135 + (t164 * t164))
-  let t167 := (t166 + t133)
-  let t171 := ((t141 + t104) + t63)
-  let t174 := (t160 + t110)
-  let t177 := (t166 + t150)
-  let t183 := ((((a.x * a.x) + (a.y * a.y)) + (a.z * a.z)) + (a.w * a.w))
-  let t184 := (a.x / a.w)
-  let t185 := (a.y / a.w)
-  let t186 := (a.z / a.w)
-  let t187 := (a.w / a.w)
-  let t188 := (t187 * t187)
-  let t189 := (t186 * t186)
-  let t190 := (t185 * t185)
-  let t191 := (t184 * t184)
-  let t192 := (t191 + t190)
-  let t196 := (a.w * (sqrt ((t192 + t189) + t188)))
-  let t197 := (a.w / a.z)
-  let t198 := (t197 * t197)
-  let t201 := (a.z * (sqrt (t36 + t198)))
-  let t202 := (a.w / a.y)
-  let t203 := (t202 * t202)
-  let t207 := (a.w / a.x)
-  let t208 := (t207 * t207)
-  let t212 := (-a.w)
-  let t213 := (a.x / t212)
-  let t214 := (a.y / t212)
-  let t215 := (a.z / t212)
-  let t216 := (t212 / t212)
-  let t217 := (t216 * t216)
-  let t218 := (t215 * t215)
-  let t219 := (t214 * t214)
-  let t220 := (t213 * t213)
-  let t221 := (t220 + t219)
-  let t225 := (t212 * (sqrt ((t221 + t218) + t217)))
-  let t226 := (t212 / a.z)
-  let t227 := (t226 * t226)
-  let t230 := (a.z * (sqrt (t36 + t227)))
-  let t231 := (t212 / a.y)
-  let t232 := (t231 * t231)
-  let t236 := (t212 / a.x)
-  let t237 := (t236 * t236)
-  let t241 := (t59 / a.w)
-  let t242 := (t241 * t241)
-  let t246 := (a.w * (sqrt ((t192 + t242) + t188)))
-  let t247 := (a.w / t59)
-  let t248 := (t247 * t247)
-  let t251 := (t59 * (sqrt (t67 + t248)))
-  let t258 := (t59 / t212)
-  let t259 := (t258 * t258)
-  let t263 := (t212 * (sqrt ((t221 + t259) + t217)))
-  let t264 := (t212 / t59)
-  let t265 := (t264 * t264)
-  let t268 := (t59 * (sqrt (t67 + t265)))
-  let t275 := (t80 / a.w)
-  let t276 := (t275 * t275)
-  let t277 := (t191 + t276)
-  let t281 := (a.w * (sqrt ((t277 + t189) + t188)))
-  let t284 := (a.z * (sqrt (t84 + t198)))
-  let t285 := (a.w / t80)
-  let t286 := (t285 * t285)
-  let t293 := (t80 / t212)
-  let t294 := (t293 * t293)
-  let t295 := (t220 + t294)
-  let t299 := (t212 * (sqrt ((t295 + t218) + t217)))
-  let t302 := (a.z * (sqrt (t84 + t227)))
-  let t303 := (t212 / t80)
-  let t304 := (t303 * t303)
-  let t314 := (a.w * (sqrt ((t277 + t242) + t188)))
-  let t317 := (t59 * (sqrt (t106 + t248)))
-  let t327 := (t212 * (sqrt ((t295 + t259) + t217)))
-  let t330 := (t59 * (sqrt (t106 + t265)))
-  let t337 := (t117 / a.w)
-  let t338 := (t337 * t337)
-  let t339 := (t338 + t190)
-  let t343 := (a.w * (sqrt ((t339 + t189) + t188)))
-  let t346 := (a.z * (sqrt (t121 + t198)))
-  let t350 := (a.w / t117)
-  let t351 := (t350 * t350)
-  let t355 := (t117 / t212)
-  let t356 := (t355 * t355)
-  let t357 := (t356 + t219)
-  let t361 := (t212 * (sqrt ((t357 + t218) + t217)))
-  let t364 := (a.z * (sqrt (t121 + t227)))
-  let t368 := (t212 / t117)
-  let t369 := (t368 * t368)
-  let t376 := (a.w * (sqrt ((t339 + t242) + t188)))
-  let t379 := (t59 * (sqrt (t143 + t248)))
-  let t389 := (t212 * (sqrt ((t357 + t259) + t217)))
-  let t392 := (t59 * (sqrt (t143 + t265)))
-  let t399 := (t338 + t276)
-  let t403 := (a.w * (sqrt ((t399 + t189) + t188)))
-  let t406 := (a.z * (sqrt (t155 + t198)))
-  let t413 := (t356 + t294)
-  let t417 := (t212 * (sqrt ((t413 + t218) + t217)))
-  let t420 := (a.z * (sqrt (t155 + t227)))
-  let t430 := (a.w * (sqrt ((t399 + t242) + t188)))
-  let t433 := (t59 * (sqrt (t171 + t248)))
-  let t443 := (t212 * (sqrt ((t413 + t259) + t217)))
-  let t446 := (t59 * (sqrt (t171 + t265)))
-  if t183 < t8 then
+  let t30 := (a.x / a.z)
+  let t31 := (a.y / a.z)
+  let t32 := (a.z / a.z)
+  let t33 := (t32 * t32)
+  let t34 := (t31 * t31)
+  let t35 := (t30 * t30)
+  let t37 := ((t35 + t34) + t33)
+  let t40 := (a.x / a.y)
+  let t41 := (a.y / a.y)
+  let t42 := (a.z / a.y)
+  let t43 := (t42 * t42)
+  let t44 := (t41 * t41)
+  let t46 := ((t40 * t40) + t44)
+  let t47 := (t46 + t43)
+  let t50 := (a.x / a.x)
+  let t51 := (a.y / a.x)
+  let t52 := (a.z / a.x)
+  let t53 := (t52 * t52)
+  let t55 := (t50 * t50)
+  let t56 := (t55 + (t51 * t51))
+  let t57 := (t56 + t53)
+  let t60 := (-a.z)
+  let t61 := (a.x / t60)
+  let t62 := (a.y / t60)
+  let t63 := (t60 / t60)
+  let t64 := (t63 * t63)
+  let t65 := (t62 * t62)
+  let t66 := (t61 * t61)
+  let t68 := ((t66 + t65) + t64)
+  let t71 := (t60 / a.y)
+  let t72 := (t71 * t71)
+  let t73 := (t46 + t72)
+  let t76 := (t60 / a.x)
+  let t77 := (t76 * t76)
+  let t78 := (t56 + t77)
+  let t81 := (-a.y)
+  let t82 := (t81 / a.z)
+  let t83 := (t82 * t82)
+  let t85 := ((t35 + t83) + t33)
+  let t88 := (a.x / t81)
+  let t89 := (t81 / t81)
+  let t90 := (a.z / t81)
+  let t91 := (t90 * t90)
+  let t92 := (t89 * t89)
+  let t94 := ((t88 * t88) + t92)
+  let t95 := (t94 + t91)
+  let t98 := (t81 / a.x)
+  let t100 := (t55 + (t98 * t98))
+  let t101 := (t100 + t53)
+  let t104 := (t81 / t60)
+  let t105 := (t104 * t104)
+  let t107 := ((t66 + t105) + t64)
+  let t110 := (t60 / t81)
+  let t111 := (t110 * t110)
+  let t112 := (t94 + t111)
+  let t115 := (t100 + t77)
+  let t118 := (-a.x)
+  let t119 := (t118 / a.z)
+  let t120 := (t119 * t119)
+  let t122 := ((t120 + t34) + t33)
+  let t125 := (t118 / a.y)
+  let t127 := ((t125 * t125) + t44)
+  let t128 := (t127 + t43)
+  let t131 := (t118 / t118)
+  let t132 := (a.y / t118)
+  let t133 := (a.z / t118)
+  let t134 := (t133 * t133)
+  let t136 := (t131 * t131)
+  let t137 := (t136 + (t132 * t132))
+  let t138 := (t137 + t134)
+  let t141 := (t118 / t60)
+  let t142 := (t141 * t141)
+  let t144 := ((t142 + t65) + t64)
+  let t147 := (t127 + t72)
+  let t150 := (t60 / t118)
+  let t151 := (t150 * t150)
+  let t152 := (t137 + t151)
+  let t156 := ((t120 + t83) + t33)
+  let t159 := (t118 / t81)
+  let t161 := ((t159 * t159) + t92)
+  let t162 := (t161 + t91)
+  let t165 := (t81 / t118)
+  let t167 := (t136 + (t165 * t165))
+  let t168 := (t167 + t134)
+  let t172 := ((t142 + t105) + t64)
+  let t175 := (t161 + t111)
+  let t178 := (t167 + t151)
+  let t184 := ((((a.x * a.x) + (a.y * a.y)) + (a.z * a.z)) + (a.w * a.w))
+  let t185 := (a.x / a.w)
+  let t186 := (a.y / a.w)
+  let t187 := (a.z / a.w)
+  let t188 := (a.w / a.w)
+  let t189 := (t188 * t188)
+  let t190 := (t187 * t187)
+  let t191 := (t186 * t186)
+  let t192 := (t185 * t185)
+  let t193 := (t192 + t191)
+  let t197 := (a.w * (sqrt ((t193 + t190) + t189)))
+  let t198 := (a.w / a.z)
+  let t199 := (t198 * t198)
+  let t202 := (a.z * (sqrt (t37 + t199)))
+  let t203 := (a.w / a.y)
+  let t204 := (t203 * t203)
+  let t207 := (a.y * (sqrt (t47 + t204)))
+  let t208 := (a.w / a.x)
+  let t209 := (t208 * t208)
+  let t212 := (a.x * (sqrt (t57 + t209)))
+  let t213 := (-a.w)
+  let t214 := (a.x / t213)
+  let t215 := (a.y / t213)
+  let t216 := (a.z / t213)
+  let t217 := (t213 / t213)
+  let t218 := (t217 * t217)
+  let t219 := (t216 * t216)
+  let t220 := (t215 * t215)
+  let t221 := (t214 * t214)
+  let t222 := (t221 + t220)
+  let t226 := (t213 * (sqrt ((t222 + t219) + t218)))
+  let t227 := (t213 / a.z)
+  let t228 := (t227 * t227)
+  let t231 := (a.z * (sqrt (t37 + t228)))
+  let t232 := (t213 / a.y)
+  let t233 := (t232 * t232)
+  let t236 := (a.y * (sqrt (t47 + t233)))
+  let t237 := (t213 / a.x)
+  let t238 := (t237 * t237)
+  let t241 := (a.x * (sqrt (t57 + t238)))
+  let t242 := (t60 / a.w)
+  let t243 := (t242 * t242)
+  let t247 := (a.w * (sqrt ((t193 + t243) + t189)))
+  let t248 := (a.w / t60)
+  let t249 := (t248 * t248)
+  let t252 := (t60 * (sqrt (t68 + t249)))
+  let t255 := (a.y * (sqrt (t73 + t204)))
+  let t258 := (a.x * (sqrt (t78 + t209)))
+  let t259 := (t60 / t213)
+  let t260 := (t259 * t259)
+  let t264 := (t213 * (sqrt ((t222 + t260) + t218)))
+  let t265 := (t213 / t60)
+  let t266 := (t265 * t265)
+  let t269 := (t60 * (sqrt (t68 + t266)))
+  let t272 := (a.y * (sqrt (t73 + t233)))
+  let t275 := (a.x * (sqrt (t78 + t238)))
+  let t276 := (t81 / a.w)
+  let t277 := (t276 * t276)
+  let t278 := (t192 + t277)
+  let t282 := (a.w * (sqrt ((t278 + t190) + t189)))
+  let t285 := (a.z * (sqrt (t85 + t199)))
+  let t286 := (a.w / t81)
+  let t287 := (t286 * t286)
+  let t290 := (t81 * (sqrt (t95 + t287)))
+  let t293 := (a.x * (sqrt (t101 + t209)))
+  let t294 := (t81 / t213)
+  let t295 := (t294 * t294)
+  let t296 := (t221 + t295)
+  let t300 := (t213 * (sqrt ((t296 + t219) + t218)))
+  let t303 := (a.z * (sqrt (t85 + t228)))
+  let t304 := (t213 / t81)
+  let t305 := (t304 * t304)
+  let t308 := (t81 * (sqrt (t95 + t305)))
+  let t311 := (a.x * (sqrt (t101 + t238)))
+  let t315 := (a.w * (sqrt ((t278 + t243) + t189)))
+  let t318 := (t60 * (sqrt (t107 + t249)))
+  let t321 := (t81 * (sqrt (t112 + t287)))
+  let t324 := (a.x * (sqrt (t115 + t209)))
+  let t328 := (t213 * (sqrt ((t296 + t260) + t218)))
+  let t331 := (t60 * (sqrt (t107 + t266)))
+  let t334 := (t81 * (sqrt (t112 + t305)))
+  let t337 := (a.x * (sqrt (t115 + t238)))
+  let t338 := (t118 / a.w)
+  let t339 := (t338 * t338)
+  let t340 := (t339 + t191)
+  let t344 := (a.w * (sqrt ((t340 + t190) + t189)))
+  let t347 := (a.z * (sqrt (t122 + t199)))
+  let t350 := (a.y * (sqrt (t128 + t204)))
+  let t351 := (a.w / t118)
+  let t352 := (t351 * t351)
+  let t355 := (t118 * (sqrt (t138 + t352)))
+  let t356 := (t118 / t213)
+  let t357 := (t356 * t356)
+  let t358 := (t357 + t220)
+  let t362 := (t213 * (sqrt ((t358 + t219) + t218)))
+  let t365 := (a.z * (sqrt (t122 + t228)))
+  let t368 := (a.y * (sqrt (t128 + t233)))
+  let t369 := (t213 / t118)
+  let t370 := (t369 * t369)
+  let t373 := (t118 * (sqrt (t138 + t370)))
+  let t377 := (a.w * (sqrt ((t340 + t243) + t189)))
+  let t380 := (t60 * (sqrt (t144 + t249)))
+  let t383 := (a.y * (sqrt (t147 + t204)))
+  let t386 := (t118 * (sqrt (t152 + t352)))
+  let t390 := (t213 * (sqrt ((t358 + t260) + t218)))
+  let t393 := (t60 * (sqrt (t144 + t266)))
+  let t396 := (a.y * (sqrt (t147 + t233)))
+  let t399 := (t118 * (sqrt (t152 + t370)))
+  let t400 := (t339 + t277)
+  let t404 := (a.w * (sqrt ((t400 + t190) + t189)))
+  let t407 := (a.z * (sqrt (t156 + t199)))
+  let t410 := (t81 * (sqrt (t162 + t287)))
+  let t413 := (t118 * (sqrt (t168 + t352)))
+  let t414 := (t357 + t295)
+  let t418 := (t213 * (sqrt ((t414 + t219) + t218)))
+  let t421 := (a.z * (sqrt (t156 + t228)))
+  let t424 := (t81 * (sqrt (t162 + t305)))
+  let t427 := (t118 * (sqrt (t168 + t370)))
+  let t431 := (a.w * (sqrt ((t400 + t243) + t189)))
+  let t434 := (t60 * (sqrt (t172 + t249)))
+  let t437 := (t81 * (sqrt (t175 + t287)))
+  let t440 := (t118 * (sqrt (t178 + t352)))
+  let t444 := (t213 * (sqrt ((t414 + t260) + t218)))
+  let t447 := (t60 * (sqrt (t172 + t266)))
+  let t450 := (t81 * (sqrt (t175 + t305)))
+  let t453 := (t118 * (sqrt (t178 + t370)))
+  if t184 < t8 then
     if (0 : α) ≤ a.x then
       if (0 : α) ≤ a.y then
         if (0 : α) ≤ a.z then
@@ -492,763 +746,1531 @@ def V4.length {α : Type} [Add α] [Mul α] [Div α] [Neg α] [LT α] [LE α] [D
                   if a.w = (0 : α) then
                     (0 : α)
                   else
-                    t196
+                    t197
                 else
                   if a.z = (0 : α) then
                     (0 : α)
                   else
-                    t201
+                    t202
               else
                 if a.y < a.w then
                   if a.w = (0 : α) then
                     (0 : α)
                   else
-                    t196
+                    t197
                 else
                   if a.y = (0 : α) then
                     (0 : α)
                   else
-                    (a.y * (sqrt (t46 + t203)))
+                    t207
             else
               if a.x < a.z then
                 if a.z < a.w then
                   if a.w = (0 : α) then
                     (0 : α)
                   else
-                    t196
+                    t197
                 else
                   if a.z = (0 : α) then
                     (0 : α)
                   else
-                    t201
+                    t202
               else
                 if a.x < a.w then
                   if a.w = (0 : α) then
                     (0 : α)
                   else
-                    t196
+                    t197
                 else
                   if a.x = (0 : α) then
                     (0 : α)
                   else
-                    (a.x * (sqrt (t56 + t208)))
+                    t212
           else
             if a.x < a.y then
               if a.y < a.z then
-                if a.z < t212 then
-                  if t212 = (0 : α) then
+                if a.z < t213 then
+                  if t213 = (0 : α) then
                     (0 : α)
                   else
-                    t225
+                    t226
                 else
                   if a.z = (0 : α) then
                     (0 : α)
                   else
-                    t230
+                    t231
               else
-                if a.y < t212 then
-                  if t212 = (0 : α) then
+                if a.y < t213 then
+                  if t213 = (0 : α) then
                     (0 : α)
                   else
-                    t225
+                    t226
                 else
                   if a.y = (0 : α) then
                     (0 : α)
                   else
-                    (a.y * (sqrt (t46 + t232)))
+                    t236
             else
               if a.x < a.z then
-                if a.z < t212 then
-                  if t212 = (0 : α) then
+                if a.z < t213 then
+                  if t213 = (0 : α) then
                     (0 : α)
                   else
-                    t225
+                    t226
                 else
                   if a.z = (0 : α) then
                     (0 : α)
                   else
-                    t230
+                    t231
               else
-                if a.x < t212 then
-                  if t212 = (0 : α) then
+                if a.x < t213 then
+                  if t213 = (0 : α) then
                     (0 : α)
                   else
-                    t225
+                    t226
                 else
                   if a.x = (0 : α) then
                     (0 : α)
                   else
-                    (a.x * (sqrt (t56 + t237)))
+                    t241
         else
           if (0 : α) ≤ a.w then
             if a.x < a.y then
-              if a.y < t59 then
-                if t59 < a.w then
+              if a.y < t60 then
+                if t60 < a.w then
                   if a.w = (0 : α) then
                     (0 : α)
                   else
-                    t246
+                    t247
                 else
-                  if t59 = (0 : α) then
+                  if t60 = (0 : α) then
                     (0 : α)
                   else
-                    t251
+                    t252
               else
                 if a.y < a.w then
                   if a.w = (0 : α) then
                     (0 : α)
                   else
-                    t246
+                    t247
                 else
                   if a.y = (0 : α) then
                     (0 : α)
                   else
-                    (a.y * (sqrt (t72 + t203)))
+                    t255
             else
-              if a.x < t59 then
-                if t59 < a.w then
+              if a.x < t60 then
+                if t60 < a.w then
                   if a.w = (0 : α) then
                     (0 : α)
                   else
-                    t246
+                    t247
                 else
-                  if t59 = (0 : α) then
+                  if t60 = (0 : α) then
                     (0 : α)
                   else
-                    t251
+                    t252
               else
                 if a.x < a.w then
                   if a.w = (0 : α) then
                     (0 : α)
                   else
-                    t246
+                    t247
                 else
                   if a.x = (0 : α) then
                     (0 : α)
                   else
-                    (a.x * (sqrt (t77 + t208)))
+                    t258
           else
             if a.x < a.y then
-              if a.y < t59 then
-                if t59 < t212 then
-                  if t212 = (0 : α) then
+              if a.y < t60 then
+                if t60 < t213 then
+                  if t213 = (0 : α) then
                     (0 : α)
                   else
-                    t263
+                    t264
                 else
-                  if t59 = (0 : α) then
+                  if t60 = (0 : α) then
                     (0 : α)
                   else
-                    t268
+                    t269
               else
-                if a.y < t212 then
-                  if t212 = (0 : α) then
+                if a.y < t213 then
+                  if t213 = (0 : α) then
                     (0 : α)
                   else
-                    t263
+                    t264
                 else
                   if a.y = (0 : α) then
                     (0 : α)
                   else
-                    (a.y * (sqrt (t72 + t232)))
+                    t272
             else
-              if a.x < t59 then
-                if t59 < t212 then
-                  if t212 = (0 : α) then
+              if a.x < t60 then
+                if t60 < t213 then
+                  if t213 = (0 : α) then
                     (0 : α)
                   else
-                    t263
+                    t264
                 else
-                  if t59 = (0 : α) then
+                  if t60 = (0 : α) then
                     (0 : α)
                   else
-                    t268
+                    t269
               else
-                if a.x < t212 then
-                  if t212 = (0 : α) then
+                if a.x < t213 then
+                  if t213 = (0 : α) then
                     (0 : α)
                   else
-                    t263
+                    t264
                 else
                   if a.x = (0 : α) then
                     (0 : α)
                   else
-                    (a.x * (sqrt (t77 + t237)))
+                    t275
       else
         if (0 : α) ≤ a.z then
           if (0 : α) ≤ a.w then
-            if a.x < t80 then
-              if t80 < a.z then
+            if a.x < t81 then
+              if t81 < a.z then
                 if a.z < a.w then
                   if a.w = (0 : α) then
                     (0 : α)
                   else
-                    t281
+                    t282
                 else
                   if a.z = (0 : α) then
                     (0 : α)
                   else
-                    t284
+                    t285
               else
-                if t80 < a.w then
+                if t81 < a.w then
                   if a.w = (0 : α) then
                     (0 : α)
                   else
-                    t281
+                    t282
                 else
-                  if t80 = (0 : α) then
+                  if t81 = (0 : α) then
                     (0 : α)
                   else
-                    (t80 * (sqrt (t94 + t286)))
+                    t290
             else
               if a.x < a.z then
                 if a.z < a.w then
                   if a.w = (0 : α) then
                     (0 : α)
                   else
-                    t281
+                    t282
                 else
                   if a.z = (0 : α) then
                     (0 : α)
                   else
-                    t284
+                    t285
               else
                 if a.x < a.w then
                   if a.w = (0 : α) then
                     (0 : α)
                   else
-                    t281
+                    t282
                 else
                   if a.x = (0 : α) then
                     (0 : α)
                   else
-                    (a.x * (sqrt (t100 + t208)))
+                    t293
           else
-            if a.x < t80 then
-              if t80 < a.z then
-                if a.z < t212 then
-                  if t212 = (0 : α) then
+            if a.x < t81 then
+              if t81 < a.z then
+                if a.z < t213 then
+                  if t213 = (0 : α) then
                     (0 : α)
                   else
-                    t299
+                    t300
                 else
                   if a.z = (0 : α) then
                     (0 : α)
                   else
-                    t302
+                    t303
               else
-                if t80 < t212 then
-                  if t212 = (0 : α) then
+                if t81 < t213 then
+                  if t213 = (0 : α) then
                     (0 : α)
                   else
-                    t299
+                    t300
                 else
-                  if t80 = (0 : α) then
+                  if t81 = (0 : α) then
                     (0 : α)
                   else
-                    (t80 * (sqrt (t94 + t304)))
+                    t308
             else
               if a.x < a.z then
-                if a.z < t212 then
-                  if t212 = (0 : α) then
+                if a.z < t213 then
+                  if t213 = (0 : α) then
                     (0 : α)
                   else
-                    t299
+                    t300
                 else
                   if a.z = (0 : α) then
                     (0 : α)
                   else
-                    t302
+                    t303
               else
-                if a.x < t212 then
-                  if t212 = (0 : α) then
+                if a.x < t213 then
+                  if t213 = (0 : α) then
                     (0 : α)
                   else
-                    t299
+                    t300
                 else
                   if a.x = (0 : α) then
                     (0 : α)
                   else
-                    (a.x * (sqrt (t100 + t237)))
+                    t311
         else
           if (0 : α) ≤ a.w then
-            if a.x < t80 then
-              if t80 < t59 then
-                if t59 < a.w then
+            if a.x < t81 then
+              if t81 < t60 then
+                if t60 < a.w then
                   if a.w = (0 : α) then
                     (0 : α)
                   else
-                    t314
+                    t315
                 else
-                  if t59 = (0 : α) then
+                  if t60 = (0 : α) then
                     (0 : α)
                   else
-                    t317
+                    t318
               else
-                if t80 < a.w then
+                if t81 < a.w then
                   if a.w = (0 : α) then
                     (0 : α)
                   else
-                    t314
+                    t315
                 else
-                  if t80 = (0 : α) then
+                  if t81 = (0 : α) then
                     (0 : α)
                   else
-                    (t80 * (sqrt (t111 + t286)))
+                    t321
             else
-              if a.x < t59 then
-                if t59 < a.w then
+              if a.x < t60 then
+                if t60 < a.w then
                   if a.w = (0 : α) then
                     (0 : α)
                   else
-                    t314
+                    t315
                 else
-                  if t59 = (0 : α) then
+                  if t60 = (0 : α) then
                     (0 : α)
                   else
-                    t317
+                    t318
               else
                 if a.x < a.w then
                   if a.w = (0 : α) then
                     (0 : α)
                   else
-                    t314
+                    t315
                 else
                   if a.x = (0 : α) then
                     (0 : α)
                   else
-                    (a.x * (sqrt (t114 + t208)))
+                    t324
           else
-            if a.x < t80 then
-              if t80 < t59 then
-                if t59 < t212 then
-                  if t212 = (0 : α) then
+            if a.x < t81 then
+              if t81 < t60 then
+                if t60 < t213 then
+                  if t213 = (0 : α) then
                     (0 : α)
                   else
-                    t327
+                    t328
                 else
-                  if t59 = (0 : α) then
+                  if t60 = (0 : α) then
                     (0 : α)
                   else
-                    t330
+                    t331
               else
-                if t80 < t212 then
-                  if t212 = (0 : α) then
+                if t81 < t213 then
+                  if t213 = (0 : α) then
                     (0 : α)
                   else
-                    t327
+                    t328
                 else
-                  if t80 = (0 : α) then
+                  if t81 = (0 : α) then
                     (0 : α)
                   else
-                    (t80 * (sqrt (t111 + t304)))
+                    t334
             else
-              if a.x < t59 then
-                if t59 < t212 then
-                  if t212 = (0 : α) then
+              if a.x < t60 then
+                if t60 < t213 then
+                  if t213 = (0 : α) then
                     (0 : α)
                   else
-                    t327
+                    t328
                 else
-                  if t59 = (0 : α) then
+                  if t60 = (0 : α) then
                     (0 : α)
                   else
-                    t330
+                    t331
               else
-                if a.x < t212 then
-                  if t212 = (0 : α) then
+                if a.x < t213 then
+                  if t213 = (0 : α) then
                     (0 : α)
                   else
-                    t327
+                    t328
                 else
                   if a.x = (0 : α) then
                     (0 : α)
                   else
-                    (a.x * (sqrt (t114 + t237)))
+                    t337
     else
       if (0 : α) ≤ a.y then
         if (0 : α) ≤ a.z then
           if (0 : α) ≤ a.w then
-            if t117 < a.y then
+            if t118 < a.y then
               if a.y < a.z then
                 if a.z < a.w then
                   if a.w = (0 : α) then
                     (0 : α)
                   else
-                    t343
+                    t344
                 else
                   if a.z = (0 : α) then
                     (0 : α)
                   else
-                    t346
+                    t347
               else
                 if a.y < a.w then
                   if a.w = (0 : α) then
                     (0 : α)
                   else
-                    t343
+                    t344
                 else
                   if a.y = (0 : α) then
                     (0 : α)
                   else
-                    (a.y * (sqrt (t127 + t203)))
+                    t350
             else
-              if t117 < a.z then
+              if t118 < a.z then
                 if a.z < a.w then
                   if a.w = (0 : α) then
                     (0 : α)
                   else
-                    t343
+                    t344
                 else
                   if a.z = (0 : α) then
                     (0 : α)
                   else
-                    t346
+                    t347
               else
-                if t117 < a.w then
+                if t118 < a.w then
                   if a.w = (0 : α) then
                     (0 : α)
                   else
-                    t343
+                    t344
                 else
-                  if t117 = (0 : α) then
+                  if t118 = (0 : α) then
                     (0 : α)
                   else
-                    (t117 * (sqrt (t137 + t351)))
+                    t355
           else
-            if t117 < a.y then
+            if t118 < a.y then
               if a.y < a.z then
-                if a.z < t212 then
-                  if t212 = (0 : α) then
+                if a.z < t213 then
+                  if t213 = (0 : α) then
                     (0 : α)
                   else
-                    t361
+                    t362
                 else
                   if a.z = (0 : α) then
                     (0 : α)
                   else
-                    t364
+                    t365
               else
-                if a.y < t212 then
-                  if t212 = (0 : α) then
+                if a.y < t213 then
+                  if t213 = (0 : α) then
                     (0 : α)
                   else
-                    t361
+                    t362
                 else
                   if a.y = (0 : α) then
                     (0 : α)
                   else
-                    (a.y * (sqrt (t127 + t232)))
+                    t368
             else
-              if t117 < a.z then
-                if a.z < t212 then
-                  if t212 = (0 : α) then
+              if t118 < a.z then
+                if a.z < t213 then
+                  if t213 = (0 : α) then
                     (0 : α)
                   else
-                    t361
+                    t362
                 else
                   if a.z = (0 : α) then
                     (0 : α)
                   else
-                    t364
+                    t365
               else
-                if t117 < t212 then
-                  if t212 = (0 : α) then
+                if t118 < t213 then
+                  if t213 = (0 : α) then
                     (0 : α)
                   else
-                    t361
+                    t362
                 else
-                  if t117 = (0 : α) then
+                  if t118 = (0 : α) then
                     (0 : α)
                   else
-                    (t117 * (sqrt (t137 + t369)))
+                    t373
         else
           if (0 : α) ≤ a.w then
-            if t117 < a.y then
-              if a.y < t59 then
-                if t59 < a.w then
+            if t118 < a.y then
+              if a.y < t60 then
+                if t60 < a.w then
                   if a.w = (0 : α) then
                     (0 : α)
                   else
-                    t376
+                    t377
                 else
-                  if t59 = (0 : α) then
+                  if t60 = (0 : α) then
                     (0 : α)
                   else
-                    t379
+                    t380
               else
                 if a.y < a.w then
                   if a.w = (0 : α) then
                     (0 : α)
                   else
-                    t376
+                    t377
                 else
                   if a.y = (0 : α) then
                     (0 : α)
                   else
-                    (a.y * (sqrt (t146 + t203)))
+                    t383
             else
-              if t117 < t59 then
-                if t59 < a.w then
+              if t118 < t60 then
+                if t60 < a.w then
                   if a.w = (0 : α) then
                     (0 : α)
                   else
-                    t376
+                    t377
                 else
-                  if t59 = (0 : α) then
+                  if t60 = (0 : α) then
                     (0 : α)
                   else
-                    t379
+                    t380
               else
-                if t117 < a.w then
+                if t118 < a.w then
                   if a.w = (0 : α) then
                     (0 : α)
                   else
-                    t376
+                    t377
                 else
-                  if t117 = (0 : α) then
+                  if t118 = (0 : α) then
                     (0 : α)
                   else
-                    (t117 * (sqrt (t151 + t351)))
+                    t386
           else
-            if t117 < a.y then
-              if a.y < t59 then
-                if t59 < t212 then
-                  if t212 = (0 : α) then
+            if t118 < a.y then
+              if a.y < t60 then
+                if t60 < t213 then
+                  if t213 = (0 : α) then
                     (0 : α)
                   else
-                    t389
+                    t390
                 else
-                  if t59 = (0 : α) then
+                  if t60 = (0 : α) then
                     (0 : α)
                   else
-                    t392
+                    t393
               else
-                if a.y < t212 then
-                  if t212 = (0 : α) then
+                if a.y < t213 then
+                  if t213 = (0 : α) then
                     (0 : α)
                   else
-                    t389
+                    t390
                 else
                   if a.y = (0 : α) then
                     (0 : α)
                   else
-                    (a.y * (sqrt (t146 + t232)))
+                    t396
             else
-              if t117 < t59 then
-                if t59 < t212 then
-                  if t212 = (0 : α) then
+              if t118 < t60 then
+                if t60 < t213 then
+                  if t213 = (0 : α) then
                     (0 : α)
                   else
-                    t389
+                    t390
                 else
-                  if t59 = (0 : α) then
+                  if t60 = (0 : α) then
                     (0 : α)
                   else
-                    t392
+                    t393
               else
-                if t117 < t212 then
-                  if t212 = (0 : α) then
+                if t118 < t213 then
+                  if t213 = (0 : α) then
                     (0 : α)
                   else
-                    t389
+                    t390
                 else
-                  if t117 = (0 : α) then
+                  if t118 = (0 : α) then
                     (0 : α)
                   else
-                    (t117 * (sqrt (t151 + t369)))
+                    t399
       else
         if (0 : α) ≤ a.z then
           if (0 : α) ≤ a.w then
-            if t117 < t80 then
-              if t80 < a.z then
+            if t118 < t81 then
+              if t81 < a.z then
                 if a.z < a.w then
                   if a.w = (0 : α) then
                     (0 : α)
                   else
-                    t403
+                    t404
                 else
                   if a.z = (0 : α) then
                     (0 : α)
                   else
-                    t406
+                    t407
               else
-                if t80 < a.w then
+                if t81 < a.w then
                   if a.w = (0 : α) then
                     (0 : α)
                   else
-                    t403
+                    t404
                 else
-                  if t80 = (0 : α) then
+                  if t81 = (0 : α) then
                     (0 : α)
                   else
-                    (t80 * (sqrt (t161 + t286)))
+                    t410
             else
-              if t117 < a.z then
+              if t118 < a.z then
                 if a.z < a.w then
                   if a.w = (0 : α) then
                     (0 : α)
                   else
-                    t403
+                    t404
                 else
                   if a.z = (0 : α) then
                     (0 : α)
                   else
-                    t406
+                    t407
               else
-                if t117 < a.w then
+                if t118 < a.w then
                   if a.w = (0 : α) then
                     (0 : α)
                   else
-                    t403
+                    t404
                 else
-                  if t117 = (0 : α) then
+                  if t118 = (0 : α) then
                     (0 : α)
                   else
-                    (t117 * (sqrt (t167 + t351)))
+                    t413
           else
-            if t117 < t80 then
-              if t80 < a.z then
-                if a.z < t212 then
-                  if t212 = (0 : α) then
+            if t118 < t81 then
+              if t81 < a.z then
+                if a.z < t213 then
+                  if t213 = (0 : α) then
                     (0 : α)
                   else
-                    t417
+                    t418
                 else
                   if a.z = (0 : α) then
                     (0 : α)
                   else
-                    t420
+                    t421
               else
-                if t80 < t212 then
-                  if t212 = (0 : α) then
+                if t81 < t213 then
+                  if t213 = (0 : α) then
                     (0 : α)
                   else
-                    t417
+                    t418
                 else
-                  if t80 = (0 : α) then
+                  if t81 = (0 : α) then
                     (0 : α)
                   else
-                    (t80 * (sqrt (t161 + t304)))
+                    t424
             else
-              if t117 < a.z then
-                if a.z < t212 then
-                  if t212 = (0 : α) then
+              if t118 < a.z then
+                if a.z < t213 then
+                  if t213 = (0 : α) then
                     (0 : α)
                   else
-                    t417
+                    t418
                 else
                   if a.z = (0 : α) then
                     (0 : α)
                   else
-                    t420
+                    t421
               else
-                if t117 < t212 then
-                  if t212 = (0 : α) then
+                if t118 < t213 then
+                  if t213 = (0 : α) then
                     (0 : α)
                   else
-                    t417
+                    t418
                 else
-                  if t117 = (0 : α) then
+                  if t118 = (0 : α) then
                     (0 : α)
                   else
-                    (t117 * (sqrt (t167 + t369)))
+                    t427
         else
           if (0 : α) ≤ a.w then
-            if t117 < t80 then
-              if t80 < t59 then
-                if t59 < a.w then
+            if t118 < t81 then
+              if t81 < t60 then
+                if t60 < a.w then
                   if a.w = (0 : α) then
                     (0 : α)
                   else
-                    t430
+                    t431
                 else
-                  if t59 = (0 : α) then
+                  if t60 = (0 : α) then
                     (0 : α)
                   else
-                    t433
+                    t434
               else
-                if t80 < a.w then
+                if t81 < a.w then
                   if a.w = (0 : α) then
                     (0 : α)
                   else
-                    t430
+                    t431
                 else
-                  if t80 = (0 : α) then
+                  if t81 = (0 : α) then
                     (0 : α)
                   else
-                    (t80 * (sqrt (t174 + t286)))
+                    t437
             else
-              if t117 < t59 then
-                if t59 < a.w then
+              if t118 < t60 then
+                if t60 < a.w then
                   if a.w = (0 : α) then
                     (0 : α)
                   else
-                    t430
+                    t431
                 else
-                  if t59 = (0 : α) then
+                  if t60 = (0 : α) then
                     (0 : α)
                   else
-                    t433
+                    t434
               else
-                if t117 < a.w then
+                if t118 < a.w then
                   if a.w = (0 : α) then
                     (0 : α)
                   else
-                    t430
+                    t431
                 else
-                  if t117 = (0 : α) then
+                  if t118 = (0 : α) then
                     (0 : α)
                   else
-                    (t117 * (sqrt (t177 + t351)))
+                    t440
           else
-            if t117 < t80 then
-              if t80 < t59 then
-                if t59 < t212 then
-                  if t212 = (0 : α) then
+            if t118 < t81 then
+              if t81 < t60 then
+                if t60 < t213 then
+                  if t213 = (0 : α) then
                     (0 : α)
                   else
-                    t443
+                    t444
                 else
-                  if t59 = (0 : α) then
+                  if t60 = (0 : α) then
                     (0 : α)
                   else
-                    t446
+                    t447
               else
-                if t80 < t212 then
-                  if t212 = (0 : α) then
+                if t81 < t213 then
+                  if t213 = (0 : α) then
                     (0 : α)
                   else
-                    t443
+                    t444
                 else
-                  if t80 = (0 : α) then
+                  if t81 = (0 : α) then
                     (0 : α)
                   else
-                    (t80 * (sqrt (t174 + t304)))
+                    t450
             else
-              if t117 < t59 then
-                if t59 < t212 then
-                  if t212 = (0 : α) then
+              if t118 < t60 then
+                if t60 < t213 then
+                  if t213 = (0 : α) then
                     (0 : α)
                   else
-                    t443
+                    t444
                 else
-                  if t59 = (0 : α) then
+                  if t60 = (0 : α) then
                     (0 : α)
                   else
-                    t446
+                    t447
               else
-                if t117 < t212 then
-                  if t212 = (0 : α) then
+                if t118 < t213 then
+                  if t213 = (0 : α) then
                     (0 : α)
                   else
-                    t443
+                    t444
                 else
-                  if t117 = (0 : α) then
+                  if t118 = (0 : α) then
                     (0 : α)
                   else
-                    (t117 * (sqrt (t177 + t369)))
+                    t453
   else
-    (sqrt t183)
+    if tmax < t184 then
+      if (0 : α) ≤ a.x then
+        if (0 : α) ≤ a.y then
+          if (0 : α) ≤ a.z then
+            if (0 : α) ≤ a.w then
+              if a.x < a.y then
+                if a.y < a.z then
+                  if a.z < a.w then
+                    if a.w = (0 : α) then
+                      (0 : α)
+                    else
+                      t197
+                  else
+                    if a.z = (0 : α) then
+                      (0 : α)
+                    else
+                      t202
+                else
+                  if a.y < a.w then
+                    if a.w = (0 : α) then
+                      (0 : α)
+                    else
+                      t197
+                  else
+                    if a.y = (0 : α) then
+                      (0 : α)
+                    else
+                      t207
+              else
+                if a.x < a.z then
+                  if a.z < a.w then
+                    if a.w = (0 : α) then
+                      (0 : α)
+                    else
+                      t197
+                  else
+                    if a.z = (0 : α) then
+                      (0 : α)
+                    else
+                      t202
+                else
+                  if a.x < a.w then
+                    if a.w = (0 : α) then
+                      (0 : α)
+                    else
+                      t197
+                  else
+                    if a.x = (0 : α) then
+                      (0 : α)
+                    else
+                      t212
+            else
+              if a.x < a.y then
+                if a.y < a.z then
+                  if a.z < t213 then
+                    if t213 = (0 : α) then
+                      (0 : α)
+                    else
+                      t226
+                  else
+                    if a.z = (0 : α) then
+                      (0 : α)
+                    else
+                      t231
+                else
+                  if a.y < t213 then
+                    if t213 = (0 : α) then
+                      (0 : α)
+                    else
+                      t226
+                  else
+                    if a.y = (0 : α) then
+                      (0 : α)
+                    else
+                      t236
+              else
+                if a.x < a.z then
+                  if a.z < t213 then
+                    if t213 = (0 : α) then
+                      (0 : α)
+                    else
+                      t226
+                  else
+                    if a.z = (0 : α) then
+                      (0 : α)
+                    else
+                      t231
+                else
+                  if a.x < t213 then
+                    if t213 = (0 : α) then
+                      (0 : α)
+                    else
+                      t226
+                  else
+                    if a.x = (0 : α) then
+                      (0 : α)
+                    else
+                      t241
+          else
+            if (0 : α) ≤ a.w then
+              if a.x < a.y then
+                if a.y < t60 then
+                  if t60 < a.w then
+                    if a.w = (0 : α) then
+                      (0 : α)
+                    else
+                      t247
+                  else
+                    if t60 = (0 : α) then
+                      (0 : α)
+                    else
+                      t252
+                else
+                  if a.y < a.w then
+                    if a.w = (0 : α) then
+                      (0 : α)
+                    else
+                      t247
+                  else
+                    if a.y = (0 : α) then
+                      (0 : α)
+                    else
+                      t255
+              else
+                if a.x < t60 then
+                  if t60 < a.w then
+                    if a.w = (0 : α) then
+                      (0 : α)
+                    else
+                      t247
+                  else
+                    if t60 = (0 : α) then
+                      (0 : α)
+                    else
+                      t252
+                else
+                  if a.x < a.w then
+                    if a.w = (0 : α) then
+                      (0 : α)
+                    else
+                      t247
+                  else
+                    if a.x = (0 : α) then
+                      (0 : α)
+                    else
+                      t258
+            else
+              if a.x < a.y then
+                if a.y < t60 then
+                  if t60 < t213 then
+                    if t213 = (0 : α) then
+                      (0 : α)
+                    else
+                      t264
+                  else
+                    if t60 = (0 : α) then
+                      (0 : α)
+                    else
+                      t269
+                else
+                  if a.y < t213 then
+                    if t213 = (0 : α) then
+                      (0 : α)
+                    else
+                      t264
+                  else
+                    if a.y = (0 : α) then
+                      (0 : α)
+                    else
+                      t272
+              else
+                if a.x < t60 then
+                  if t60 < t213 then
+                    if t213 = (0 : α) then
+                      (0 : α)
+                    else
+                      t264
+                  else
+                    if t60 = (0 : α) then
+                      (0 : α)
+                    else
+                      t269
+                else
+                  if a.x < t213 then
+                    if t213 = (0 : α) then
+                      (0 : α)
+                    else
+                      t264
+                  else
+                    if a.x = (0 : α) then
+                      (0 : α)
+                    else
+                      t275
+        else
+          if (0 : α) ≤ a.z then
+            if (0 : α) ≤ a.w then
+              if a.x < t81 then
+                if t81 < a.z then
+                  if a.z < a.w then
+                    if a.w = (0 : α) then
+                      (0 : α)
+                    else
+                      t282
+                  else
+                    if a.z = (0 : α) then
+                      (0 : α)
+                    else
+                      t285
+                else
+                  if t81 < a.w then
+                    if a.w = (0 : α) then
+                      (0 : α)
+                    else
+                      t282
+                  else
+                    if t81 = (0 : α) then
+                      (0 : α)
+                    else
+                      t290
+              else
+                if a.x < a.z then
+                  if a.z < a.w then
+                    if a.w = (0 : α) then
+                      (0 : α)
+                    else
+                      t282
+                  else
+                    if a.z = (0 : α) then
+                      (0 : α)
+                    else
+                      t285
+                else
+                  if a.x < a.w then
+                    if a.w = (0 : α) then
+                      (0 : α)
+                    else
+                      t282
+                  else
+                    if a.x = (0 : α) then
+                      (0 : α)
+                    else
+                      t293
+            else
+              if a.x < t81 then
+                if t81 < a.z then
+                  if a.z < t213 then
+                    if t213 = (0 : α) then
+                      (0 : α)
+                    else
+                      t300
+                  else
+                    if a.z = (0 : α) then
+                      (0 : α)
+                    else
+                      t303
+                else
+                  if t81 < t213 then
+                    if t213 = (0 : α) then
+                      (0 : α)
+                    else
+                      t300
+                  else
+                    if t81 = (0 : α) then
+                      (0 : α)
+                    else
+                      t308
+              else
+                if a.x < a.z then
+                  if a.z < t213 then
+                    if t213 = (0 : α) then
+                      (0 : α)
+                    else
+                      t300
+                  else
+                    if a.z = (0 : α) then
+                      (0 : α)
+                    else
+                      t303
+                else
+                  if a.x < t213 then
+                    if t213 = (0 : α) then
+                      (0 : α)
+                    else
+                      t300
+                  else
+                    if a.x = (0 : α) then
+                      (0 : α)
+                    else
+                      t311
+          else
+            if (0 : α) ≤ a.w then
+              if a.x < t81 then
+                if t81 < t60 then
+                  if t60 < a.w then
+                    if a.w = (0 : α) then
+                      (0 : α)
+                    else
+                      t315
+                  else
+                    if t60 = (0 : α) then
+                      (0 : α)
+                    else
+                      t318
+                else
+                  if t81 < a.w then
+                    if a.w = (0 : α) then
+                      (0 : α)
+                    else
+                      t315
+                  else
+                    if t81 = (0 : α) then
+                      (0 : α)
+                    else
+                      t321
+              else
+                if a.x < t60 then
+                  if t60 < a.w then
+                    if a.w = (0 : α) then
+                      (0 : α)
+                    else
+                      t315
+                  else
+                    if t60 = (0 : α) then
+                      (0 : α)
+                    else
+                      t318
+                else
+                  if a.x < a.w then
+                    if a.w = (0 : α) then
+                      (0 : α)
+                    else
+                      t315
+                  else
+                    if a.x = (0 : α) then
+                      (0 : α)
+                    else
+                      t324
+            else
+              if a.x < t81 then
+                if t81 < t60 then
+                  if t60 < t213 then
+                    if t213 = (0 : α) then
+                      (0 : α)
+                    else
+                      t328
+                  else
+                    if t60 = (0 : α) then
+                      (0 : α)
+                    else
+                      t331
+                else
+                  if t81 < t213 then
+                    if t213 = (0 : α) then
+                      (0 : α)
+                    else
+                      t328
+                  else
+                    if t81 = (0 : α) then
+                      (0 : α)
+                    else
+                      t334
+              else
+                if a.x < t60 then
+                  if t60 < t213 then
+                    if t213 = (0 : α) then
+                      (0 : α)
+                    else
+                      t328
+                  else
+                    if t60 = (0 : α) then
+                      (0 : α)
+                    else
+                      t331
+                else
+                  if a.x < t213 then
+                    if t213 = (0 : α) then
+                      (0 : α)
+                    else
+                      t328
+                  else
+                    if a.x = (0 : α) then
+                      (0 : α)
+                    else
+                      t337
+      else
+        if (0 : α) ≤ a.y then
+          if (0 : α) ≤ a.z then
+            if (0 : α) ≤ a.w then
+              if t118 < a.y then
+                if a.y < a.z then
+                  if a.z < a.w then
+                    if a.w = (0 : α) then
+                      (0 : α)
+                    else
+                      t344
+                  else
+                    if a.z = (0 : α) then
+                      (0 : α)
+                    else
+                      t347
+                else
+                  if a.y < a.w then
+                    if a.w = (0 : α) then
+                      (0 : α)
+                    else
+                      t344
+                  else
+                    if a.y = (0 : α) then
+                      (0 : α)
+                    else
+                      t350
+              else
+                if t118 < a.z then
+                  if a.z < a.w then
+                    if a.w = (0 : α) then
+                      (0 : α)
+                    else
+                      t344
+                  else
+                    if a.z = (0 : α) then
+                      (0 : α)
+                    else
+                      t347
+                else
+                  if t118 < a.w then
+                    if a.w = (0 : α) then
+                      (0 : α)
+                    else
+                      t344
+                  else
+                    if t118 = (0 : α) then
+                      (0 : α)
+                    else
+                      t355
+            else
+              if t118 < a.y then
+                if a.y < a.z then
+                  if a.z < t213 then
+                    if t213 = (0 : α) then
+                      (0 : α)
+                    else
+                      t362
+                  else
+                    if a.z = (0 : α) then
+                      (0 : α)
+                    else
+                      t365
+                else
+                  if a.y < t213 then
+                    if t213 = (0 : α) then
+                      (0 : α)
+                    else
+                      t362
+                  else
+                    if a.y = (0 : α) then
+                      (0 : α)
+                    else
+                      t368
+              else
+                if t118 < a.z then
+                  if a.z < t213 then
+                    if t213 = (0 : α) then
+                      (0 : α)
+                    else
+                      t362
+                  else
+                    if a.z = (0 : α) then
+                      (0 : α)
+                    else
+                      t365
+                else
+                  if t118 < t213 then
+                    if t213 = (0 : α) then
+                      (0 : α)
+                    else
+                      t362
+                  else
+                    if t118 = (0 : α) then
+                      (0 : α)
+                    else
+                      t373
+          else
+            if (0 : α) ≤ a.w then
+              if t118 < a.y then
+                if a.y < t60 then
+                  if t60 < a.w then
+                    if a.w = (0 : α) then
+                      (0 : α)
+                    else
+                      t377
+                  else
+                    if t60 = (0 : α) then
+                      (0 : α)
+                    else
+                      t380
+                else
+                  if a.y < a.w then
+                    if a.w = (0 : α) then
+                      (0 : α)
+                    else
+                      t377
+                  else
+                    if a.y = (0 : α) then
+                      (0 : α)
+                    else
+                      t383
+              else
+                if t118 < t60 then
+                  if t60 < a.w then
+                    if a.w = (0 : α) then
+                      (0 : α)
+                    else
+                      t377
+                  else
+                    if t60 = (0 : α) then
+                      (0 : α)
+                    else
+                      t380
+                else
+                  if t118 < a.w then
+                    if a.w = (0 : α) then
+                      (0 : α)
+                    else
+                      t377
+                  else
+                    if t118 = (0 : α) then
+                      (0 : α)
+                    else
+                      t386
+            else
+              if t118 < a.y then
+                if a.y < t60 then
+                  if t60 < t213 then
+                    if t213 = (0 : α) then
+                      (0 : α)
+                    else
+                      t390
+                  else
+                    if t60 = (0 : α) then
+                      (0 : α)
+                    else
+                      t393
+                else
+                  if a.y < t213 then
+                    if t213 = (0 : α) then
+                      (0 : α)
+                    else
+                      t390
+                  else
+                    if a.y = (0 : α) then
+                      (0 : α)
+                    else
+                      t396
+              else
+                if t118 < t60 then
+                  if t60 < t213 then
+                    if t213 = (0 : α) then
+                      (0 : α)
+                    else
+                      t390
+                  else
+                    if t60 = (0 : α) then
+                      (0 : α)
+                    else
+                      t393
+                else
+                  if t118 < t213 then
+                    if t213 = (0 : α) then
+                      (0 : α)
+                    else
+                      t390
+                  else
+                    if t118 = (0 : α) then
+                      (0 : α)
+                    else
+                      t399
+        else
+          if (0 : α) ≤ a.z then
+            if (0 : α) ≤ a.w then
+              if t118 < t81 then
+                if t81 < a.z then
+                  if a.z < a.w then
+                    if a.w = (0 : α) then
+                      (0 : α)
+                    else
+                      t404
+                  else
+                    if a.z = (0 : α) then
+                      (0 : α)
+                    else
+                      t407
+                else
+                  if t81 < a.w then
+                    if a.w = (0 : α) then
+                      (0 : α)
+                    else
+                      t404
+                  else
+                    if t81 = (0 : α) then
+                      (0 : α)
+                    else
+                      t410
+              else
+                if t118 < a.z then
+                  if a.z < a.w then
+                    if a.w = (0 : α) then
+                      (0 : α)
+                    else
+                      t404
+                  else
+                    if a.z = (0 : α) then
+                      (0 : α)
+                    else
+                      t407
+                else
+                  if t118 < a.w then
+                    if a.w = (0 : α) then
+                      (0 : α)
+                    else
+                      t404
+                  else
+                    if t118 = (0 : α) then
+                      (0 : α)
+                    else
+                      t413
+            else
+              if t118 < t81 then
+                if t81 < a.z then
+                  if a.z < t213 then
+                    if t213 = (0 : α) then
+                      (0 : α)
+                    else
+                      t418
+                  else
+                    if a.z = (0 : α) then
+                      (0 : α)
+                    else
+                      t421
+                else
+                  if t81 < t213 then
+                    if t213 = (0 : α) then
+                      (0 : α)
+                    else
+                      t418
+                  else
+                    if t81 = (0 : α) then
+                      (0 : α)
+                    else
+                      t424
+              else
+                if t118 < a.z then
+                  if a.z < t213 then
+                    if t213 = (0 : α) then
+                      (0 : α)
+                    else
+                      t418
+                  else
+                    if a.z = (0 : α) then
+                      (0 : α)
+                    else
+                      t421
+                else
+                  if t118 < t213 then
+                    if t213 = (0 : α) then
+                      (0 : α)
+                    else
+                      t418
+                  else
+                    if t118 = (0 : α) then
+                      (0 : α)
+                    else
+                      t427
+          else
+            if (0 : α) ≤ a.w then
+              if t118 < t81 then
+                if t81 < t60 then
+                  if t60 < a.w then
+                    if a.w = (0 : α) then
+                      (0 : α)
+                    else
+                      t431
+                  else
+                    if t60 = (0 : α) then
+                      (0 : α)
+                    else
+                      t434
+                else
+                  if t81 < a.w then
+                    if a.w = (0 : α) then
+                      (0 : α)
+                    else
+                      t431
+                  else
+                    if t81 = (0 : α) then
+                      (0 : α)
+                    else
+                      t437
+              else
+                if t118 < t60 then
+                  if t60 < a.w then
+                    if a.w = (0 : α) then
+                      (0 : α)
+                    else
+                      t431
+                  else
+                    if t60 = (0 : α) then
+                      (0 : α)
+                    else
+                      t434
+                else
+                  if t118 < a.w then
+                    if a.w = (0 : α) then
+                      (0 : α)
+                    else
+                      t431
+                  else
+                    if t118 = (0 : α) then
+                      (0 : α)
+                    else
+                      t440
+            else
+              if t118 < t81 then
+                if t81 < t60 then
+                  if t60 < t213 then
+                    if t213 = (0 : α) then
+                      (0 : α)
+                    else
+                      t444
+                  else
+                    if t60 = (0 : α) then
+                      (0 : α)
+                    else
+                      t447
+                else
+                  if t81 < t213 then
+                    if t213 = (0 : α) then
+                      (0 : α)
+                    else
+                      t444
+                  else
+                    if t81 = (0 : α) then
+                      (0 : α)
+                    else
+                      t450
+              else
+                if t118 < t60 then
+                  if t60 < t213 then
+                    if t213 = (0 : α) then
+                      (0 : α)
+                    else
+                      t444
+                  else
+                    if t60 = (0 : α) then
+                      (0 : α)
+                    else
+                      t447
+                else
+                  if t118 < t213 then
+                    if t213 = (0 : α) then
+                      (0 : α)
+                    else
+                      t444
+                  else
+                    if t118 = (0 : α) then
+                      (0 : α)
+                    else
+                      t453
+    else
+      (sqrt t184)
 
 end ImathVerif.Gen
